@@ -191,7 +191,10 @@ def managerJson (s : Db Json Json) (key : Nat) (a : Accessory Json Json) : Json 
 def handle17 (j : Json) : R Json := do
   let isBridge ← getBool j "bridge"
   let mainSpecs ← getArr j "main"
-  let defs ← (ctorSpecs (some 1) ++ mainSpecs.toList).mapM svcDefOf
+  -- a standalone accessory may be constructed with aid=None (no HAPProtocolInformation
+  -- service); `driver.add_accessory` then gives it aid 1.  A Bridge is always built with aid 1.
+  let ctorAid ← if isBridge then pure (some 1) else optNat j "mainAid"
+  let defs ← (ctorSpecs ctorAid ++ mainSpecs.toList).mapM svcDefOf
   let ops ← (← getArr j "ops").toList.mapM op17Of
   let s0 : Db Json Json := Db.init isBridge defs
   let (s, results) := runOps17 s0 ops []
@@ -271,6 +274,7 @@ def op11Of (j : Json) : R (Op11 Json Json) := do
   | "setDisplay" => pure (.setDisplay (← getNat j "obj") (← optStr j "name"))
   | "setGetter" => pure (.setGetter (← getNat j "obj") (← getBool j "on"))
   | "setAvailable" => pure (.setAvailable (← getNat j "aid") (← getBool j "on"))
+  | "setPrimary" => pure (.setPrimary (← getNat j "aid") (← getStr j "type"))
   | "readAll" => pure (.readAll (← getBool j "incl") (← gByKey (← getArr j "g")))
   | "readChars" =>
     let ids ← (← getArr j "ids").toList.mapM pairOf
